@@ -315,7 +315,7 @@ Section D.
     - unfold rollback_op in H. destruct (s_txn s); try (injection H as _ <-; discriminate).
       destruct (s_cur s) as [[cid st0]|] eqn:E; [|congruence].
       destruct (call_or_handle faults lst K_ROLLBACK cid s) as [s1 c1] eqn:Hcoh.
-      assert (X : c = ROk \/ s' = set_txn s1 TNone (s_nested s1) /\ c = c1) by (destruct c1; injection H as <- <-; auto).
+      assert (X : c = ROk \/ s' = set_txn s1 TNone [] /\ c = c1) by (destruct c1; injection H as <- <-; auto).
       destruct X as [->|[-> ->]]; [discriminate|]. exact (coh_disc_shape _ _ _ _ _ _ E Hcoh Hd).
     - unfold savepoint_op in H.
       assert (Hb : exists s1, (match s_txn s with TNone => begin_op faults lst s | _ => (s, ROk) end) = (s1, ROk) /\
